@@ -324,6 +324,50 @@ func (c *Ctx) checkMapTypeGuard(target *ssa.Function) (bool, string) {
 				}
 			}
 			if guardedBy(r.I, true, isTypeTest(token.EQL)) == nil && guardedBy(r.I, false, isTypeTest(token.NEQ)) == nil {
+				// a helper that selects a key of the node it is given (`requiredOneOfKey(data, key, path)`): every call site
+				// hands it a node that was tested there
+				if p, isParam := recv.(*ssa.Parameter); isParam && !c.usedAsValue(fn) {
+					sites := c.CG().callers[fn]
+					okSites := len(sites) > 0
+					for _, st := range sites {
+						cc2 := callCommon(st.Instr)
+						if cc2 == nil || cc2.StaticCallee() != fn {
+							okSites = false
+							continue
+						}
+						idx := -1
+						for k, fp := range fn.Params {
+							if fp == p {
+								idx = k
+							}
+						}
+						if idx < 0 || idx >= len(cc2.Args) {
+							okSites = false
+							continue
+						}
+						arg := cc2.Args[idx]
+						atSite := func(op token.Token) func(ssa.Value) bool {
+							return func(cond ssa.Value) bool {
+								b, ok := cond.(*ssa.BinOp)
+								if !ok || b.Op != op {
+									return false
+								}
+								s, isC := constString(b.Y)
+								if !isC || s != "map" {
+									return false
+								}
+								call, ok := b.X.(*ssa.Call)
+								return ok && call.Common().IsInvoke() && call.Common().Method.Name() == "Type" && sameVal(call.Common().Value, arg)
+							}
+						}
+						if guardedBy(st.Instr, true, atSite(token.EQL)) == nil && guardedBy(st.Instr, false, atSite(token.NEQ)) == nil {
+							okSites = false
+						}
+					}
+					if okSites {
+						return
+					}
+				}
 				bad = append(bad, c.fnName(fn)+"@"+c.instrPos(r.I))
 			}
 		})
@@ -681,6 +725,16 @@ func derivation(v ssa.Value, p *ssa.Parameter) int {
 				walk(e, projected, d+1)
 			}
 		case *ssa.Extract:
+			// a selecting helper of the repository (`requiredOneOfKey(data, key, path)` returns a child of data): what its
+			// result in this position derives from, in terms of the call's arguments
+			if call, ok := x.Tuple.(*ssa.Call); ok {
+				if f := call.Common().StaticCallee(); f != nil && isRepoFn(f) && len(f.Blocks) > 0 && !projectionMethods[f.Name()] {
+					if pi, grade := helperResultDerivation(f, x.Index); pi >= 0 && pi < len(call.Common().Args) {
+						walk(call.Common().Args[pi], projected || grade == 2, d+1)
+						return
+					}
+				}
+			}
 			walk(x.Tuple, projected, d+1)
 		case *ssa.Next:
 			if r, ok := x.Iter.(*ssa.Range); ok {
@@ -756,6 +810,55 @@ func derivation(v ssa.Value, p *ssa.Parameter) int {
 	}
 	walk(v, false, 0)
 	return best
+}
+
+var helperDerivationBusy = map[*ssa.Function]bool{}
+
+// helperResultDerivation: every non-nil value the function returns in position idx derives from one and the same
+// parameter; returns that parameter's index and the weakest grade (1 = the parameter itself or as large, 2 = a part of it).
+func helperResultDerivation(f *ssa.Function, idx int) (int, int) {
+	if helperDerivationBusy[f] {
+		return -1, 0
+	}
+	helperDerivationBusy[f] = true
+	defer delete(helperDerivationBusy, f)
+	pi, grade := -1, 0
+	ok := true
+	eachInstr(f, func(r instrRef) {
+		ret, isRet := r.I.(*ssa.Return)
+		if !isRet || !ok {
+			return
+		}
+		res := retResults(ret)
+		if idx >= len(res) {
+			ok = false
+			return
+		}
+		if isNilConst(res[idx]) {
+			return
+		}
+		found := false
+		for k, q := range f.Params {
+			if g := derivation(res[idx], q); g > 0 {
+				if pi >= 0 && pi != k {
+					ok = false
+					return
+				}
+				pi = k
+				if grade == 0 || g < grade {
+					grade = g
+				}
+				found = true
+			}
+		}
+		if !found {
+			ok = false
+		}
+	})
+	if !ok || pi < 0 {
+		return -1, 0
+	}
+	return pi, grade
 }
 
 // Set abstractions: `loading.contains(k)`, `loading.add(k)`, `loading.remove(k)` on a named map type are the map
@@ -1206,6 +1309,9 @@ func (c *Ctx) errorPropagated(call *ssa.Call) (bool, []string) {
 						}
 					}
 				}
+			case *ssa.Phi:
+				// merged with other errors into one variable that is tested afterwards (`if err == nil { err = g() }`)
+				find(x, depth+1)
 			case *ssa.Store:
 				// stored into a local (named result / outer variable) and tested through a load
 				if al, ok := x.Addr.(*ssa.Alloc); ok && x.Val == v && al.Referrers() != nil {
@@ -1234,6 +1340,35 @@ func (c *Ctx) errorPropagated(call *ssa.Call) (bool, []string) {
 			return true, nil
 		}
 		return false, []string{"the error result is never tested"}
+	}
+	// the non-nil side of `if err == nil { err = g() }` is the join where the merged variable is tested again: on the way
+	// from our test it holds our (non-nil) error, so only its non-nil side is feasible
+	for i := 0; i < 3; i++ {
+		var phi *ssa.Phi
+		for _, in := range errBlock.Instrs {
+			if ph, ok := in.(*ssa.Phi); ok {
+				for _, e := range ph.Edges {
+					if e == errV {
+						phi = ph
+					}
+				}
+			}
+		}
+		ifi := blockIf(errBlock)
+		if phi == nil || ifi == nil {
+			break
+		}
+		b, ok := ifi.Cond.(*ssa.BinOp)
+		if !ok || b.X != ssa.Value(phi) || !isNilConst(b.Y) {
+			break
+		}
+		if b.Op == token.NEQ {
+			errBlock = errBlock.Succs[0]
+		} else if b.Op == token.EQL {
+			errBlock = errBlock.Succs[1]
+		} else {
+			break
+		}
 	}
 	p := c.findPathFrom(errBlock, 0, func(in ssa.Instruction) bool {
 		ret, ok := in.(*ssa.Return)
